@@ -116,6 +116,20 @@ pub fn big_ratio(p: &str, q: &str) -> f64 {
     }
     let (mp, ep) = big_parts(p);
     let (mq, eq) = big_parts(q);
+    if p.trim_start_matches('-').len() <= 15 {
+        // a power-of-two denominator (scaled request streams): exact, down to the subnormal range
+        let s = (mq.log2() + eq as f64 * 10f64.log2()).round();
+        if s >= 1.0 && s <= 1100.0 && crate::cases::pow2_str(s as u32) == q {
+            let mut v = p.parse::<f64>().unwrap_or(f64::NAN);
+            let mut k = s as i32;
+            while k > 0 {
+                let step = k.min(512);
+                v *= 2f64.powi(-step);
+                k -= step;
+            }
+            return v;
+        }
+    }
     (mp / mq) * 10f64.powi(ep - eq)
 }
 
